@@ -266,13 +266,18 @@ __CPROVER_ensures(gj < self->count.v ==> self->datac[gj] == __CPROVER_old(self->
         says='concurrent bag, one thread: pop releases the top slot with a CAS on the counter and destroys exactly the element that was on top',
         replay=dict(prog='cbag_pop', args=[], cxxflags=['-DCS=%d' % CS], lib=True)))
 
-EXPLANATION = ('FixedSizeRing (size/empty/full, emplace_front/back, pop_front/back, front/back/getAt, clear, begin/end, iterator ++/--/+=/-/*), '
+from contracts import C14_pra
+UNITS += C14_pra.UNITS
+
+EXPLANATION = ('PODResizeableArray<uint8_t|uint64_t> (contracts/C14_pra.py): constructors, move, destructor, reserve/resize/clear, operator[]/at/front/back/data, begin/end/size/max_size/empty, push_back (also of an own element), insert at end, assign, swap against the abstract sequence data_[0..size_) -- same results as std::vector, every other element kept (ghost probe), block = exactly capacity_ elements, blocks freed once.  '
+               'FixedSizeRing (size/empty/full, emplace_front/back, pop_front/back, front/back/getAt, clear, begin/end, iterator ++/--/+=/-/*), '
                'FixedSizeBag (emplace/pop/front/clear) and ConcurrentFixedSizeBag push/pop used from one thread are extracted from /repo, lowered to C and proved, '
                'for ChunkSize 1, 3|4 and 64, against an abstract sequence (stack) view with a representation invariant that ties "slot constructed" to "slot in the window": '
                'every operation returns what the standard container would, changes nothing else in the sequence, and constructs/destroys each element exactly once.')
-NOT_DECIDED = ('FixedSizeRing::emplace(pos) in the middle (std::move_backward over ring iterators), gdeque, gslist, FlatMap, PODResizeableArray, LazyArray/LazyObject/optional themselves, '
+NOT_DECIDED = ('FixedSizeRing::emplace(pos) in the middle (std::move_backward over ring iterators), gdeque, gslist, FlatMap, LazyArray/LazyObject/optional themselves, PODResizeableArray with self-referencing ranges (assign/insert from own iterators: undefined for std::vector too) and allocation failure, '
                'PriorityQueue family, InsertBag, TwoLevelIterator(A), LargeArray; other ChunkSize values (template constant instantiated concretely).')
-ASSUMPTIONS = ['LazyArray<T,N> = array of N slots + ghost live bit per slot (la_emplace/la_destroy/la_at in the prelude)',
+ASSUMPTIONS = ['PODResizeableArray: realloc = trusted stub over CBMC malloc (new block, content kept at the probe element, old block poisoned at the probe element instead of freed), never fails; std::copy_n/memcpy = element-wise copy at a probe index; sizes <= 2^40; NULL+0 in begin()/end() accepted (defined in C++)',
+               'LazyArray<T,N> = array of N slots + ghost live bit per slot (la_emplace/la_destroy/la_at in the prelude)',
                'element type T is an opaque 64-bit token (copy = assignment); std::forward is the identity',
                'ConcurrentFixedSizeBag: counter through the interference stub with the rely "unchanged by others" (single-thread use)',
                'constant-bound __CPROVER_forall over the ChunkSize slots (expanded by CBMC on the SAT back end; logs scanned for "ignoring")']
